@@ -468,4 +468,160 @@ Proof.
   apply init_once_when_idle; auto.
 Qed.
 
+(* ---------------------------------------------------------------- every module of the node is initialised
+   (Server._processCfg fetches every module with get_module after get_descriptive_data) *)
+Lemma has_key_set_assoc {A} k k' (v : A) : forall l, has_key k' l = true -> has_key k' (set_assoc k v l) = true.
+Proof.
+  unfold has_key. induction l as [|[k0 v0] r IH]; simpl; [discriminate|].
+  destruct (Nat.eqb k k0) eqn:E1; simpl.
+  - apply Nat.eqb_eq in E1. subst k0. destruct (Nat.eqb k' k); auto.
+  - destruct (Nat.eqb k' k0); auto.
+Qed.
+
+Lemma has_key_In {A} k : forall (l : list (nat * A)), has_key k l = true -> In k (map fst l).
+Proof.
+  unfold has_key. induction l as [|[k0 v0] r IH]; simpl; [discriminate|].
+  destruct (Nat.eqb k k0) eqn:E; [apply Nat.eqb_eq in E; auto|auto].
+Qed.
+
+Definition keys_mono (st st' : node) : Prop :=
+  forall b, has_key b (modules st) = true -> has_key b (modules st') = true.
+
+Lemma km_refl st : keys_mono st st. Proof. intros b H; exact H. Qed.
+Lemma km_trans a b c : keys_mono a b -> keys_mono b c -> keys_mono a c.
+Proof. intros H1 H2 k K. auto. Qed.
+Lemma km_same st st' : modules st' = modules st -> keys_mono st st'.
+Proof. intros E b H. rewrite E. exact H. Qed.
+Lemma km_upd st st' k f : modules st' = upd k f (modules st) -> keys_mono st st'.
+Proof. intros E b H. rewrite E, has_key_upd. exact H. Qed.
+
+Lemma add_module_keys n i st : keys_mono st (add_module n i st).
+Proof. intros b H. unfold add_module. destruct (d_export (i_decl i)); simpl; apply has_key_set_assoc; exact H. Qed.
+
+Lemma create_keys st b d : keys_mono st (fst (create st b d)).
+Proof.
+  unfold create. destruct (negb (creatable d)); simpl; [apply km_refl|].
+  destruct (d_kind d) as [|[|u|m]|]; simpl; try apply add_module_keys.
+  destruct (find u (iodict st)); simpl; [apply add_module_keys|].
+  eapply km_trans; [|apply add_module_keys]. eapply km_trans; [apply (add_module_keys (io_name b) (new_inst io_decl None))|].
+  apply km_same. reflexivity.
+Qed.
+
+Lemma get_instance_keys st b : keys_mono st (fst (get_instance st b)).
+Proof.
+  unfold get_instance. destruct (has_key b (modules st)); simpl; [apply km_refl|].
+  destruct (find b (avail st)); simpl; [apply create_keys|apply km_refl].
+Qed.
+
+Lemma step_keys limit st : keys_mono st (step limit st).
+Proof.
+  unfold step. destruct (stack st) as [|fr rest]; [apply km_refl|].
+  destruct (f_ops fr) as [|o ops]; [eapply km_upd; reflexivity|].
+  destruct o; try (apply km_same; reflexivity).
+  - destruct (find idx (attached_of st (f_mod fr))); [apply km_same; reflexivity|].
+    destruct (a_target a) as [b|]; [|apply km_same; reflexivity].
+    pose proof (get_instance_keys st b) as G. destruct (get_instance st b) as [st1 r]; simpl in G.
+    destruct r; try (eapply km_trans; [exact G|eapply km_upd; reflexivity]).
+    destruct (isinit _ b); [eapply km_trans; [exact G|apply km_same; reflexivity]|].
+    destruct (Nat.leb _ _); eapply km_trans; try exact G; [eapply km_upd; reflexivity|apply km_same; reflexivity].
+  - destruct (want_ok _ _); eapply km_upd; reflexivity.
+  - eapply km_upd; reflexivity.
+  - unfold register. destruct (_ || _); [eapply km_upd; reflexivity|apply km_same; reflexivity].
+Qed.
+
+Lemma run_gm_keys limit fuel : forall st, keys_mono st (run_gm limit fuel st).
+Proof.
+  induction fuel; intros st; simpl; destruct (stack st); try apply km_refl.
+  - apply km_same; reflexivity.
+  - eapply km_trans; [apply step_keys|apply IHfuel].
+Qed.
+
+Lemma gm_top_keys limit fuel st b : keys_mono st (gm_top limit fuel st b).
+Proof.
+  unfold gm_top. pose proof (get_instance_keys st b) as G. destruct (get_instance st b) as [st1 r]; simpl in G.
+  destruct r; auto. destruct (isinit st1 b); auto.
+  eapply km_trans; [exact G|]. eapply km_trans; [|apply run_gm_keys]. apply km_same; reflexivity.
+Qed.
+
+Lemma init_loop_keys limit fuel : forall n i st, keys_mono st (init_loop limit fuel n i st).
+Proof.
+  induction n; intros i st; simpl; [apply km_refl|]. destruct (nth_error (export st) i); [|apply km_refl].
+  eapply km_trans; [apply gm_top_keys|apply IHn].
+Qed.
+
+Lemma In_ce b : forall tr, In (EEarly b) tr -> 1 <= ce b tr.
+Proof.
+  induction tr as [|e r IH]; simpl; [contradiction|]. intros [E|I]; rewrite ce_cons.
+  - subst e. simpl. rewrite Nat.eqb_refl. lia.
+  - specialize (IH I). lia.
+Qed.
+
+Lemma ce_In b : forall tr, 1 <= ce b tr -> In (EEarly b) tr.
+Proof.
+  induction tr as [|e r IH]; [unfold ce; simpl; lia|]. rewrite ce_cons. destruct (is_early b e) eqn:E.
+  - intros _. left. destruct e; try discriminate. simpl in E. apply Nat.eqb_eq in E. subst; reflexivity.
+  - intros H. right. apply IH. lia.
+Qed.
+
+Lemma ext_In st st' e : ext st st' -> In e (trace st) -> In e (trace st').
+Proof. intros [[evs [T _]] _] I. rewrite T. apply in_or_app. right. exact I. Qed.
+
+(* get_module of an existing module: afterwards its earlyInit has run (now or earlier) *)
+Lemma gm_top_early limit fuel st b : has_key b (modules st) = true -> stuck (gm_top limit fuel st b) = false ->
+  isinit st b = true \/ In (EEarly b) (trace (gm_top limit fuel st b)).
+Proof.
+  intros K. unfold gm_top, get_instance. rewrite K. simpl. destruct (isinit st b) eqn:I; auto. intros NS. right.
+  destruct (frame_ops_shape (decl_of st b) (io_of st b)) as [r0 [HR _]].
+  assert (P : push b st = set_stack st ({| f_mod := b; f_ops := OEarlyEv :: r0 |} :: stack st))
+    by (unfold push; rewrite HR; reflexivity).
+  rewrite P in *. destruct fuel; simpl in *; [discriminate|].
+  match goal with |- In _ (trace (run_gm limit fuel ?s)) => set (st2 := s) in * end.
+  assert (T2 : trace st2 = EEarly b :: trace st) by reflexivity.
+  apply (ext_In st2); [apply run_gm_ext|]. rewrite T2. left; reflexivity.
+Qed.
+
+Lemma fold_sticky limit fuel : forall names st, stuck st = true ->
+  stuck (fold_left (fun acc b => gm_top limit fuel acc b) names st) = true.
+Proof. induction names; intros st H; simpl; auto. apply IHnames. apply gm_top_sticky. exact H. Qed.
+
+Lemma fold_all limit fuel : forall names st, LInv st -> stack st = [] ->
+  stuck (fold_left (fun acc b => gm_top limit fuel acc b) names st) = false ->
+  let st' := fold_left (fun acc b => gm_top limit fuel acc b) names st in
+  LInv st' /\ stack st' = [] /\
+  (forall b, In b names -> has_key b (modules st) = true -> In (EEarly b) (trace st')).
+Proof.
+  induction names as [|b r IH]; intros st L Hs NS; simpl in *.
+  - repeat split; auto. intros b [].
+  - assert (NS1 : stuck (gm_top limit fuel st b) = false).
+    { destruct (stuck (gm_top limit fuel st b)) eqn:Q; auto.
+      rewrite (fold_sticky limit fuel r _ Q) in NS. discriminate. }
+    pose proof (gm_top_LInv limit fuel st b L Hs) as L1. pose proof (gm_top_stack limit fuel st b Hs NS1) as Hs1.
+    destruct (IH _ L1 Hs1 NS) as [L2 [Hs2 E2]]. repeat split; auto.
+    intros x [X|X] K.
+    + subst x. apply (ext_In (gm_top limit fuel st b)); [apply fold_gm_ext|].
+      destruct (gm_top_early limit fuel st b K NS1) as [I|I]; auto.
+      apply (ext_In st); [apply gm_top_ext|]. apply ce_In.
+      destruct (init_once_when_idle st L Hs b) as [_ R]. destruct (R I) as [C _]. lia.
+    + apply E2; auto. apply (gm_top_keys limit fuel st b). exact K.
+Qed.
+
+Theorem init_phase_every_module limit fuel st : fresh st -> stuck (init_phase limit fuel st) = false ->
+  forall m, let st' := init_phase limit fuel st in
+  (has_key m (modules st) = true -> isinit st' m = true /\ ce m (trace st') = 1 /\ ci m (trace st') <= 1) /\
+  (isinit st' m = false -> ce m (trace st') = 0 /\ ci m (trace st') = 0).
+Proof.
+  intros F NS m st'. pose proof F as [Hs _]. unfold init_phase, init_rest in *.
+  set (st1 := init_all limit fuel st) in *.
+  assert (NS1 : stuck st1 = false).
+  { destruct (stuck st1) eqn:Q; auto. rewrite (fold_sticky limit fuel _ _ Q) in NS. discriminate. }
+  destruct (init_loop_LInv limit fuel _ 0 st (fresh_LInv st F) Hs NS1) as [L1 Hs1]. fold st1 in L1, Hs1.
+  destruct (fold_all limit fuel (map fst (modules st1)) st1 L1 Hs1 NS) as [L2 [Hs2 E2]].
+  destruct (init_once_when_idle _ L2 Hs2 m) as [R0 R1]. split; [|exact R0].
+  intros K. assert (K1 : has_key m (modules st1) = true) by (apply (init_loop_keys limit fuel _ 0 st); exact K).
+  pose proof (E2 m (has_key_In m _ K1) K1) as I. apply In_ce in I.
+  destruct (isinit st' m) eqn:Q.
+  - split; auto.
+  - destruct (R0 Q) as [C _]. fold st' in I. lia.
+Qed.
+
 End Ranked.
